@@ -1,6 +1,6 @@
 /-
-Lemmas/C10EB.lean — generated `eweyl_n_down3`, `eweyl_u_down4`,
-`levicivita_*`, `s_to_st` against the textbook expressions of Spec/Weyl.lean.
+Lemmas/C10EB.lean — generated `eweyl_n_down3` (both vacuum flags) and `eweyl_u_down4` against the
+textbook expressions of Spec/Weyl.lean.
 -/
 import AurelVerif.Gen.CoreCurv
 import AurelVerif.Gen.CoreHelpers
@@ -15,75 +15,6 @@ namespace AurelVerif.C10
 open AurelVerif.Gen.Core AurelVerif.Tensor AurelVerif.CoreTac AurelVerif.Spec.Weyl
 
 variable {K : Type} [Field K]
-
-/-! ### Levi-Civita tables -/
-
-/-- the 4-index symbol changes sign under each adjacent transposition and `[0123] = +1`
-(this characterises the totally antisymmetric symbol). -/
-theorem lc_symbol4_antisymm (e : Env K) : ∀ a b c d : Fin 4,
-    levicivita_symbol_down4 e a b c d = -levicivita_symbol_down4 e b a c d
-    ∧ levicivita_symbol_down4 e a b c d = -levicivita_symbol_down4 e a c b d
-    ∧ levicivita_symbol_down4 e a b c d = -levicivita_symbol_down4 e a b d c := by
-  cases4 <;> cases4 <;> cases4 <;> cases4 <;>
-    (simp only [levicivita_symbol_down4, ↓vec4_0, ↓vec4_1, ↓vec4_2, ↓vec4_3, neg_neg, neg_zero, and_self])
-
-theorem lc_symbol4_0123 (e : Env K) : levicivita_symbol_down4 e 0 1 2 3 = 1 := by
-  simp only [levicivita_symbol_down4, ↓vec4_0, ↓vec4_1, ↓vec4_2, ↓vec4_3]
-
-theorem lc_symbol3_antisymm (e : Env K) : ∀ a b c : Fin 3,
-    levicivita_symbol_down3 e a b c = -levicivita_symbol_down3 e b a c
-    ∧ levicivita_symbol_down3 e a b c = -levicivita_symbol_down3 e a c b := by
-  cases3 <;> cases3 <;> cases3 <;>
-    (simp only [levicivita_symbol_down3, ↓vec3_0, ↓vec3_1, ↓vec3_2, neg_neg, neg_zero, and_self])
-
-theorem lc_symbol3_012 (e : Env K) : levicivita_symbol_down3 e 0 1 2 = 1 := by
-  simp only [levicivita_symbol_down3, ↓vec3_0, ↓vec3_1, ↓vec3_2]
-
-/-- the tensors are the symbols times `√(−g)`, `√γ`. -/
-theorem lc_down4_spec (e : Env K) : ∀ a b c d : Fin 4,
-    levicivita_down4 e a b c d = levicivita_symbol_down4 e a b c d * e.sqrtF (-e.gdet) := by
-  cases4 <;> cases4 <;> cases4 <;> cases4 <;>
-    (simp only [levicivita_down4, levicivita_symbol_down4, ↓vec4_0, ↓vec4_1, ↓vec4_2, ↓vec4_3, zero_mul, one_mul])
-
-theorem lc_down3_spec (e : Env K) : ∀ a b c : Fin 3,
-    levicivita_down3 e a b c = levicivita_symbol_down3 e a b c * e.sqrtF e.gammadet := by
-  cases3 <;> cases3 <;> cases3 <;>
-    (simp only [levicivita_down3, levicivita_symbol_down3, ↓vec3_0, ↓vec3_1, ↓vec3_2, zero_mul, one_mul])
-
-theorem lc_down4_antisymm34 (e : Env K) (a b c d : Fin 4) :
-    levicivita_down4 e a b c d = -levicivita_down4 e a b d c := by
-  rw [lc_down4_spec, lc_down4_spec, (lc_symbol4_antisymm e a b c d).2.2]; ring
-
-/-! ### `s_to_st` -/
-
-theorem s_to_st_shift_symm (e : Env K) (f : Fin 3 → Fin 3 → K) (hf : ∀ i j, f i j = f j i) :
-    ∀ a b : Fin 4, s_to_st__betaup3 e f a b = s_to_st__betaup3 e f b a := by
-  have h01 := hf 1 0; have h02 := hf 2 0; have h12 := hf 2 1
-  cases4 <;> cases4 <;> (simp only [core_unfold, h01, h02, h12])
-
-theorem s_to_st_noshift_symm (e : Env K) (f : Fin 3 → Fin 3 → K) (hf : ∀ i j, f i j = f j i) :
-    ∀ a b : Fin 4, s_to_st__dflt e f a b = s_to_st__dflt e f b a := by
-  have h01 := hf 1 0; have h02 := hf 2 0; have h12 := hf 2 1
-  cases4 <;> cases4 <;> (simp only [core_unfold, h01, h02, h12])
-
-/-- layout of `s_to_st` (shift present): `f_00 = β^iβ^j f_ij`, `f_0k = f_k0 = β^i f_ik`, `f_ij` spatial block. -/
-theorem s_to_st_shift_layout (e : Env K) (f : Fin 3 → Fin 3 → K) :
-    s_to_st__betaup3 e f 0 0 = ∑ i, ∑ j, e.betaup3 i * e.betaup3 j * f i j
-    ∧ (∀ k : Fin 3, s_to_st__betaup3 e f 0 k.succ = ∑ i, e.betaup3 i * f i k
-        ∧ s_to_st__betaup3 e f k.succ 0 = ∑ i, e.betaup3 i * f i k)
-    ∧ ∀ i j : Fin 3, s_to_st__betaup3 e f i.succ j.succ = f i j := by
-  refine ⟨?_, ?_, ?_⟩
-  · unfold_core; ring
-  · cases3 <;> (constructor <;> unfold_core)
-  · cases3 <;> cases3 <;> rfl
-
-/-- layout of `s_to_st` (no shift key present): time row and column vanish. -/
-theorem s_to_st_noshift_layout (e : Env K) (f : Fin 3 → Fin 3 → K) :
-    (∀ μ : Fin 4, s_to_st__dflt e f 0 μ = 0 ∧ s_to_st__dflt e f μ 0 = 0)
-    ∧ ∀ i j : Fin 3, s_to_st__dflt e f i.succ j.succ = f i j := by
-  refine ⟨?_, ?_⟩
-  · cases4 <;> exact ⟨rfl, rfl⟩
-  · cases3 <;> cases3 <;> rfl
 
 /-! ### E on the slice -/
 
